@@ -60,7 +60,7 @@ import (
 // ---------------------------------------------------------------- input / output shapes
 
 type denomRef struct {
-	K string `json:"k"` // "c": ordinary coin ucoin<N>; "e": erc20/<address of token N>
+	K string `json:"k"` // "c": ordinary coin ucoin<N>; "e": erc20/<address of token N>; "g": the gas coin unibi
 	N int    `json:"n"`
 }
 
@@ -140,7 +140,11 @@ type world struct {
 	cold  gethcommon.Address       // id 6
 	toks  []gethcommon.Address     // token id -> address
 	inBlk int
+	// unibi supply that belongs to the rest of genesis (validators, pools, …), outside the modelled accounts
+	gasOutside sdkmath.Int
 }
+
+const setupFund = int64(1e17)
 
 var gasPrice = big.NewInt(1_000_000_000_000)
 
@@ -150,13 +154,13 @@ func newWorld(t *testing.T) *world {
 	c.BeginBlock(5 * time.Second)
 	for i := range w.eoa {
 		w.eoa[i] = evmtest.NewEthPrivAcc()
-		if err := c.Fund(w.eoa[i].NibiruAddr, Unibi(1e17)); err != nil {
+		if err := c.Fund(w.eoa[i].NibiruAddr, Unibi(setupFund)); err != nil {
 			t.Fatal(err)
 		}
 	}
 	for i := range w.cos {
 		w.cos[i] = secp256k1.GenPrivKey()
-		if err := c.Fund(sdk.AccAddress(w.cos[i].PubKey().Address()), Unibi(1e17)); err != nil {
+		if err := c.Fund(sdk.AccAddress(w.cos[i].PubKey().Address()), Unibi(setupFund)); err != nil {
 			t.Fatal(err)
 		}
 	}
@@ -171,6 +175,7 @@ func newWorld(t *testing.T) *world {
 	w.fwd = crypto.CreateAddress(w.eoa[0].EthAddr, 0)
 	c.EndBlock()
 	c.BeginBlock(5 * time.Second)
+	w.gasOutside = c.App.BankKeeper.GetSupply(c.Ctx(), evm.EVMBankDenom).Amount.Sub(sdkmath.NewInt(4 * setupFund))
 	return w
 }
 
@@ -208,6 +213,9 @@ func (w *world) denom(d *denomRef) string {
 	if d.K == "e" {
 		return "erc20/" + w.tokAddr(d.N).String()
 	}
+	if d.K == "g" {
+		return evm.EVMBankDenom
+	}
 	return fmt.Sprintf("ucoin%d", d.N)
 }
 
@@ -221,6 +229,9 @@ func (w *world) tokID(a gethcommon.Address) int {
 }
 
 func (w *world) denomRefOf(s string) denomRef {
+	if s == evm.EVMBankDenom {
+		return denomRef{K: "g"}
+	}
 	if strings.HasPrefix(s, "ucoin") {
 		if n, err := strconv.Atoi(s[5:]); err == nil {
 			return denomRef{K: "c", N: n}
@@ -371,7 +382,7 @@ func (w *world) run(op c06Op) bool {
 	}
 	switch op.K {
 	case "fund":
-		if op.D == nil || op.D.K != "c" || x.Sign() < 0 {
+		if op.D == nil || op.D.K == "e" || x.Sign() < 0 {
 			return false
 		}
 		coins := sdk.NewCoins(sdk.NewCoin(w.denom(op.D), sdkmath.NewIntFromBigInt(x)))
@@ -380,10 +391,16 @@ func (w *world) run(op c06Op) bool {
 		}
 		return c.Fund(w.nibi(op.A), coins) == nil
 	case "meta":
-		if op.D == nil || op.D.K != "c" {
+		if op.D == nil || op.D.K == "e" {
 			return false
 		}
 		d := w.denom(op.D)
+		if op.D.K == "g" {
+			c.App.BankKeeper.SetDenomMetaData(c.Ctx(), bank.Metadata{
+				DenomUnits: []*bank.DenomUnit{{Denom: d, Exponent: 0}, {Denom: "NIBI", Exponent: 6}}, Base: d, Display: "NIBI", Name: "NIBI", Symbol: "NIBI",
+			})
+			return true
+		}
 		c.App.BankKeeper.SetDenomMetaData(c.Ctx(), bank.Metadata{
 			DenomUnits: []*bank.DenomUnit{{Denom: d, Exponent: 0}}, Base: d, Display: d, Name: d, Symbol: strings.ToUpper(d),
 		})
@@ -501,6 +518,9 @@ func (w *world) observe(op c06Op, ok bool) stepObs {
 		m.ESup = bigStr(erc.LoadERC20BigInt(ctx, evmObj, abiERC, a, "totalSupply"))
 		m.EMod = bigStr(erc.BalanceOf(a, evm.EVM_MODULE_ADDRESS, ctx, evmObj))
 		m.BSup = bk.GetSupply(ctx, ft.BankDenom).Amount.String()
+		if ft.BankDenom == evm.EVMBankDenom {
+			m.BSup = bk.GetSupply(ctx, ft.BankDenom).Amount.Sub(w.gasOutside).String()
+		}
 		m.BMod = bk.GetBalance(ctx, w.nibi(0), ft.BankDenom).Amount.String()
 		o.Reg = append(o.Reg, m)
 	}
@@ -547,6 +567,10 @@ func (w *world) observe(op c06Op, ok bool) stepObs {
 	if td != nil {
 		o.TD = td
 		for _, id := range accts {
+			if td.K == "g" && id >= 1 && id <= 4 {
+				o.BBal = append(o.BBal, "-1") // pays transaction gas / fees in this coin: not compared
+				continue
+			}
 			o.BBal = append(o.BBal, bk.GetBalance(ctx, w.nibi(id), w.denom(td)).Amount.String())
 		}
 	}
@@ -587,15 +611,26 @@ type gen struct {
 	ops   []c06Op
 	ntok  int
 	kinds []string // kind per token id ("minter" for module-deployed)
-	meta  map[int]bool
+	meta  map[denomRef]bool
 	maps  []shadowMap
 	bank  map[denomRef]map[int]int64
 	erc   map[int]map[int]int64
 }
 
-func (g *gen) bbal(d denomRef, a int) int64 { return g.bank[d][a] }
+func gasPayer(d denomRef, a int) bool { return d.K == "g" && a >= 1 && a <= 4 }
+
+// the gas payers hold ~10^17 unibi; the shadow pretends a small balance so that amounts stay far from the real one
+func (g *gen) bbal(d denomRef, a int) int64 {
+	if gasPayer(d, a) {
+		return 1000
+	}
+	return g.bank[d][a]
+}
 func (g *gen) ebal(t, a int) int64           { return g.erc[t][a] }
 func (g *gen) addB(d denomRef, a int, x int64) {
+	if gasPayer(d, a) {
+		return
+	}
 	if g.bank[d] == nil {
 		g.bank[d] = map[int]int64{}
 	}
@@ -676,9 +711,17 @@ func (g *gen) pickMap(coin int) (shadowMap, bool) { // coin: 1 coin-born, 0 erc-
 	return c[g.r.Intn(len(c))], true
 }
 
+func (g *gen) coinDenom() denomRef {
+	if g.r.Chance(1, 4) {
+		return denomRef{K: "g"}
+	}
+	return denomRef{K: "c", N: g.r.Intn(4)}
+}
+
 func (g *gen) randDenom() *denomRef {
 	if g.r.Chance(1, 2) {
-		return &denomRef{K: "c", N: g.r.Intn(4)}
+		d := g.coinDenom()
+		return &d
 	}
 	return &denomRef{K: "e", N: g.r.Intn(g.ntok + 1)}
 }
@@ -783,7 +826,7 @@ func (g *gen) note(op c06Op) {
 	}
 	switch op.K {
 	case "meta":
-		g.meta[op.D.N] = true
+		g.meta[*op.D] = true
 	case "fund":
 		g.addB(*op.D, op.A, x)
 	case "deploy":
@@ -795,7 +838,7 @@ func (g *gen) note(op c06Op) {
 		g.addE(g.ntok, op.A, sup)
 		g.ntok++
 	case "create_coin":
-		if op.D.K == "c" && g.meta[op.D.N] && !g.isMappedDen(*op.D) {
+		if op.D.K != "e" && g.meta[*op.D] && !g.isMappedDen(*op.D) {
 			g.maps = append(g.maps, shadowMap{tok: g.ntok, d: *op.D, coin: true})
 			g.kinds = append(g.kinds, "minter")
 			g.ntok++
@@ -835,9 +878,9 @@ var evmActors = []int{1, 2, 5}
 
 func (g *gen) randomOp() {
 	r := g.r
-	switch r.Pick(6, 7, 15, 18, 15, 6, 13, 5, 3, 2, 9) {
+	switch r.Pick(6, 7, 15, 18, 15, 6, 13, 5, 3, 2, 12) {
 	case 0: // create from coin
-		d := denomRef{K: "c", N: r.Intn(4)}
+		d := g.coinDenom()
 		if r.Chance(1, 15) && g.ntok > 0 {
 			d = denomRef{K: "e", N: r.Intn(g.ntok)}
 		}
@@ -891,7 +934,12 @@ func (g *gen) randomOp() {
 		a, bal := g.holder(evmActors, func(a int) int64 { return g.ebal(t, a) })
 		g.push(g.evmSide(c06Op{K: "erc20_burn", A: a, T: t, X: g.amount(bal)}, false))
 	case 8:
-		g.push(c06Op{K: "fund", A: r.Range(1, 6), D: &denomRef{K: "c", N: r.Intn(3)}, X: strconv.Itoa(r.Range(1, 500))})
+		fd := denomRef{K: "c", N: r.Intn(3)}
+		fa := r.Range(1, 6)
+		if r.Chance(1, 4) {
+			fd, fa = denomRef{K: "g"}, r.Range(5, 6)
+		}
+		g.push(c06Op{K: "fund", A: fa, D: &fd, X: strconv.Itoa(r.Range(1, 500))})
 	case 9:
 		g.push(c06Op{K: "deploy", A: r.Range(1, 2), Kind: []string{"std", "fee", "heavy", "false"}[r.Pick(4, 4, 1, 1)]})
 	case 10: // two ops in one transaction
@@ -958,8 +1006,29 @@ func (g *gen) evmSub() c06Op {
 	}
 }
 
+// gasSub: an op of the forwarder on the gas-coin mapping (if there is one)
+func (g *gen) gasSub(m shadowMap) c06Op {
+	r := g.r
+	gd := denomRef{K: "g"}
+	switch r.Pick(5, 3, 2) {
+	case 0:
+		return c06Op{K: "send_to_evm", A: 5, D: &gd, X: g.amount(g.bbal(gd, 5)), To: g.anyTo(), Fmt: g.fmtTo()}
+	case 1:
+		return c06Op{K: "send_to_bank", A: 5, T: m.tok, X: g.amount(g.ebal(m.tok, 5)), To: g.anyTo(), Fmt: g.fmtTo()}
+	default:
+		return c06Op{K: "bank_msg_send", A: 5, D: &gd, X: g.amount(g.bbal(gd, 5)), To: g.anyTo(), Fmt: g.fmtTo()}
+	}
+}
+
 func (g *gen) seqOp() c06Op {
 	r := g.r
+	if m, ok := g.mapOfDen(denomRef{K: "g"}); ok && r.Chance(1, 2) {
+		a, b := g.gasSub(m), g.gasSub(m)
+		if r.Chance(1, 3) {
+			b = g.evmSub()
+		}
+		return c06Op{K: "seq", A: 5, Ops: []c06Op{a, b}}
+	}
 	if r.Chance(2, 3) {
 		return c06Op{K: "seq", A: 5, Ops: []c06Op{g.evmSub(), g.evmSub()}}
 	}
@@ -976,7 +1045,7 @@ func (g *gen) seqOp() c06Op {
 	case 0:
 		return c06Op{K: "seq", A: a, Ops: []c06Op{conv(), conv()}}
 	case 1:
-		d := denomRef{K: "c", N: r.Intn(4)}
+		d := g.coinDenom()
 		second := conv()
 		second.D = &d
 		return c06Op{K: "seq", A: a, Ops: []c06Op{{K: "create_coin", A: a, D: &d}, second}}
@@ -986,7 +1055,7 @@ func (g *gen) seqOp() c06Op {
 }
 
 func genCase(r *Rng) []c06Op {
-	g := &gen{r: r, meta: map[int]bool{}, bank: map[denomRef]map[int]int64{}, erc: map[int]map[int]int64{}}
+	g := &gen{r: r, meta: map[denomRef]bool{}, bank: map[denomRef]map[int]int64{}, erc: map[int]map[int]int64{}}
 	nd := r.Range(2, 3)
 	for d := 0; d < nd; d++ {
 		g.push(c06Op{K: "meta", D: &denomRef{K: "c", N: d}})
@@ -1001,6 +1070,15 @@ func genCase(r *Rng) []c06Op {
 		// spread the token: other EOA, forwarder, a Cosmos account
 		for _, to := range []int{3 - owner, 5, 3} {
 			g.push(c06Op{K: "erc20_transfer", A: owner, T: g.ntok - 1, To: to, X: strconv.Itoa(r.Range(20, 200))})
+		}
+	}
+	// the gas coin as a FunToken: metadata, unibi for the forwarder, (mostly) the mapping itself
+	if r.Chance(3, 5) {
+		gd := denomRef{K: "g"}
+		g.push(c06Op{K: "meta", D: &gd})
+		g.push(c06Op{K: "fund", A: 5, D: &gd, X: strconv.Itoa(r.Range(500, 5000))})
+		if r.Chance(4, 5) {
+			g.push(c06Op{K: "create_coin", A: 4, D: &gd})
 		}
 	}
 	// mostly create the mappings early
@@ -1071,6 +1149,22 @@ func openers() [][]c06Op {
 			{K: "send_to_evm", A: 2, D: e0, X: "50", To: 6, Fmt: "bech32"},
 			{K: "send_to_evm", A: 2, D: e0, X: "30", To: 100, Fmt: "hex"},
 		}),
+		// the gas coin unibi as a coin-born FunToken: two precompile calls in one tx (same and different methods)
+		{
+			{K: "meta", D: &denomRef{K: "g"}}, {K: "fund", A: 5, D: &denomRef{K: "g"}, X: "5000"},
+			{K: "create_coin", A: 3, D: &denomRef{K: "g"}}, {K: "create_coin", A: 4, D: &denomRef{K: "g"}},
+			{K: "send_to_evm", A: 5, D: &denomRef{K: "g"}, X: "700", To: 5, Fmt: "hex", Frame: "plain"},
+			{K: "seq", A: 5, Ops: []c06Op{{K: "send_to_evm", A: 5, D: &denomRef{K: "g"}, X: "1000", To: 2, Fmt: "hex"}, {K: "send_to_evm", A: 5, D: &denomRef{K: "g"}, X: "1000", To: 2, Fmt: "bech32"}}},
+			{K: "seq", A: 5, Ops: []c06Op{{K: "send_to_bank", A: 5, T: 0, X: "300", To: 6, Fmt: "hex"}, {K: "send_to_evm", A: 5, D: &denomRef{K: "g"}, X: "250", To: 1, Fmt: "hex"}}},
+			{K: "seq", A: 5, Ops: []c06Op{{K: "bank_msg_send", A: 5, D: &denomRef{K: "g"}, X: "10", To: 6, Fmt: "hex"}, {K: "send_to_evm", A: 5, D: &denomRef{K: "g"}, X: "40", To: 6, Fmt: "hex"}}},
+			{K: "send_to_evm", A: 5, D: &denomRef{K: "g"}, X: "60", To: 2, Fmt: "hex", Frame: "once_then_reverted"},
+			{K: "send_to_evm", A: 5, D: &denomRef{K: "g"}, X: "60", To: 2, Fmt: "hex", Frame: "inner_revert"},
+			{K: "convert", A: 3, D: &denomRef{K: "g"}, X: "900", To: 1, Fmt: "hex"},
+			{K: "send_to_evm", A: 1, D: &denomRef{K: "g"}, X: "77", To: 6, Fmt: "bech32"},
+			{K: "send_to_bank", A: 1, T: 0, X: "500", To: 6, Fmt: "bech32"},
+			{K: "send_to_bank", A: 2, T: 0, X: "1500", To: 5, Fmt: "hex"},
+			{K: "bank_msg_send", A: 1, D: &denomRef{K: "g"}, X: "5", To: 6, Fmt: "hex"},
+		},
 		// ERC20 whose transfer moves the tokens but returns false: usable by its holders, refused by the bridge
 		cat(pre, []c06Op{
 			{K: "deploy", A: 1, Kind: "false"},
